@@ -3,21 +3,21 @@ import json, hashlib, re
 
 INV = {
     'C01': ['Inv_C01_WriteOnlyIfPermitted', 'Inv_C01_LadderMatchesStatement', 'Inv_C01_RefusalReported',
-            'Inv_C01_PermittedIsDone', 'Inv_C01_AdoptNotSkipped'],
-    'C02': ['Act_C02_RevisionMonotone', 'Inv_C02_NoTakeFromNewer', 'Inv_C02_SingleController', 'Act_C02_RevisionFixed'],
-    'C03': ['Inv_C03_Gate', 'Inv_C03_FirstFailureNamed'],
-    'C04': ['Inv_C04_ReverseOrder', 'Inv_C04_FinalizerHeld', 'Inv_C04_ArchivedFalseUntilDone', 'Inv_C04_NothingControlledWhenReleased'],
+            'Inv_C01_PermittedIsDone', 'Inv_C01_AdoptNotSkipped', 'Inv_C19_NoPanic'],
+    'C02': ['Act_C02_RevisionMonotone', 'Inv_C02_NoTakeFromNewer', 'Inv_C02_SingleController', 'Act_C02_RevisionFixed', 'Inv_C19_NoPanic'],
+    'C03': ['Inv_C03_Gate', 'Inv_C03_FirstFailureNamed', 'Inv_C19_NoPanic'],
+    'C04': ['Inv_C04_ReverseOrder', 'Inv_C04_FinalizerHeld', 'Inv_C04_ArchivedFalseUntilDone', 'Inv_C04_NothingControlledWhenReleased', 'Inv_C19_NoPanic'],
     'C05': ['Inv_C05_DeleteOnlyController', 'Inv_C05_StoreEnforces', 'Inv_C05_DeletedWasControlled', 'Inv_C05_CoOwned',
-            'Inv_C05_ForeignUntouched', 'Inv_C05_Orphan'],
+            'Inv_C05_ForeignUntouched', 'Inv_C05_Orphan', 'Inv_C19_NoPanic'],
     'C06': ['Inv_C06_AvailableJustified', 'Inv_C06_ControllerOf', 'Inv_C06_SucceededWhenAvailable', 'Act_C06_SucceededSticky',
-            'Inv_C06_InTransition', 'Inv_C06_Archived', 'Inv_C06_ArchivedNotReconciled'],
-    'C07': ['Inv_C07_CreateJustified', 'Inv_C07_AtMostOnePerTemplateEpoch', 'Inv_C07_RevisionsUnique', 'Inv_C07_RevisionIncreasing', 'Inv_C07_NoReuse', 'Inv_C07_ProgressOnMismatch', 'Conf_DeployPlan'],
-    'C08': ['Inv_C08_ArchiveOnlyPaused', 'Inv_C08_NewestNeverArchived', 'Inv_C08_ArchiveCondition', 'Inv_C08_PruneOldestOnly', 'Inv_C08_SharedObjectNotDeleted', 'Inv_C05_DeletedWasControlled', 'Conf_DeployPlan'],
-    'C09': ['Inv_C09_NoWritesWhilePaused', 'Inv_C09_StillReports', 'Inv_C09_PausedPassCompletes', 'Inv_C09_DeploymentPausedNoRevisionChange', 'Inv_C09_ReleaseExactlyMarked', 'Inv_C09_Propagation', 'Inv_C09_PackagePaused', 'Inv_C09_PhasePauseFollows', 'Inv_C09_PhasePauseBehindFailure', 'Conf_DeployPlan', 'Conf_RemotePhase'],
+            'Inv_C06_InTransition', 'Inv_C06_Archived', 'Inv_C06_ArchivedNotReconciled', 'Inv_C06_MappedConditions', 'Inv_C19_NoPanic'],
+    'C07': ['Inv_C07_CreateJustified', 'Inv_C07_AtMostOnePerTemplateEpoch', 'Inv_C07_RevisionsUnique', 'Inv_C07_RevisionIncreasing', 'Inv_C07_NoReuse', 'Inv_C07_ProgressOnMismatch', 'Conf_DeployPlan', 'Inv_C19_NoPanic'],
+    'C08': ['Inv_C08_ArchiveOnlyPaused', 'Inv_C08_NewestNeverArchived', 'Inv_C08_ArchiveCondition', 'Inv_C08_PruneOldestOnly', 'Inv_C08_SharedObjectNotDeleted', 'Inv_C05_DeletedWasControlled', 'Conf_DeployPlan', 'Inv_C19_NoPanic'],
+    'C09': ['Inv_C09_NoWritesWhilePaused', 'Inv_C09_StillReports', 'Inv_C09_PausedPassCompletes', 'Inv_C09_DeploymentPausedNoRevisionChange', 'Inv_C09_ReleaseExactlyMarked', 'Inv_C09_Propagation', 'Inv_C09_PackagePaused', 'Inv_C09_PhasePauseFollows', 'Inv_C09_PhasePauseBehindFailure', 'Conf_DeployPlan', 'Conf_RemotePhase', 'Inv_C19_NoPanic'],
     'C10': ['Inv_C10_Quiescent', 'Inv_C10_SameOutcome', 'Inv_C10_DigestMatchesStore', 'Inv_C10_RetryArmed', 'Inv_C19_NoPanic'],
-    'C11': ['Inv_C11_PhaseAllOrNothing', 'Inv_C11_Scope', 'Inv_C11_Reported', 'Inv_C11_NoWriteIfViolating', 'Inv_C11_ViolationReported'],
-    'C14': ['Inv_C14_SameAsInline', 'Inv_C14_GC', 'Inv_C14_GCInstant', 'Inv_C14_SliceContent', 'Conf_DeployPlan'],
-    'C15': ['Inv_C15_SameAsLocal', 'Inv_C15_PhaseObjectFaithful', 'Inv_C15_PhaseObjectLifetime', 'Inv_C15_PausePropagation', 'Inv_C15_RemotePhaseRefsCurrent', 'Inv_C09_PhasePauseFollows', 'Inv_C09_PhasePauseBehindFailure', 'Conf_RemotePhase'],
+    'C11': ['Inv_C11_PhaseAllOrNothing', 'Inv_C11_Scope', 'Inv_C11_Reported', 'Inv_C11_NoWriteIfViolating', 'Inv_C11_ViolationReported', 'Inv_C19_NoPanic'],
+    'C14': ['Inv_C14_SameAsInline', 'Inv_C14_GC', 'Inv_C14_GCInstant', 'Inv_C14_SliceContent', 'Conf_DeployPlan', 'Inv_C19_NoPanic'],
+    'C15': ['Inv_C15_SameAsLocal', 'Inv_C15_PhaseObjectFaithful', 'Inv_C15_PhaseObjectLifetime', 'Inv_C15_PausePropagation', 'Inv_C15_RemotePhaseRefsCurrent', 'Inv_C09_PhasePauseFollows', 'Inv_C09_PhasePauseBehindFailure', 'Conf_RemotePhase', 'Inv_C19_NoPanic'],
     'C12': ['Inv_C12_InformerIffOwned', 'Inv_C12_HandlersAttached', 'Inv_C12_ReadUnwatchedFails', 'Inv_C12_MatchesReferenceModel'],
     'C20': ['Inv_C20_OnePullPerImage', 'Inv_C20_ExactlyOneResponse', 'Inv_C20_NoPhantomPull', 'Inv_C20_Private', 'Inv_C20_NoLostWakeup'],
     'C13': ['Inv_C13_Deterministic', 'Inv_C13_Conservation', 'Inv_C13_LabelsAndAnnotations', 'Inv_C13_FuncAllowList'],
@@ -222,7 +222,7 @@ def jobs_c01(tier, seed):
 
 
 HANDOVER = 'handover-2rev,handover-3rev,handover-3rev-annot,delegated-handover,local-to-delegated,rolledout-handover,handover-cpnone,handover-ifnoctrl'
-ROLLOUT = 'single-2phase,single-2phase-cel,single-3phase,delegated-mixed,sliced,rolledout-delegated,paused-start'
+ROLLOUT = 'single-2phase,single-2phase-cel,single-3phase,delegated-mixed,sliced,rolledout-delegated,paused-start,single-mapped,delegated-mapped'
 TEARDOWN = 'rolledout-2phase,rolledout-delegated,rolledout-handover,single-2phase,delegated-mixed,handover-2rev,sliced'
 DEPLOY = 'deploy,deploy-limit1,deploy-limit0,deploy-rolledout,deploy-limit1-ghost'
 
